@@ -148,3 +148,74 @@ def gen_int_values(rng, n, unsorted=True):
                 break
             rng.shuffle(vals)
     return [float(v) for v in vals], label
+
+
+def caller_mutation(rng, ys, ws=None):
+    """The caller goes on using the arrays it built a distribution from: ONE in-place modification of the float64 ndarray `ys`
+    (and/or of the weight ndarray `ws`) of the kind user code performs on its own buffers -- sort, reverse, negate, rescale, refill
+    with the next sample, overwrite one entry, permute / zero / renormalise weights.  The statement is executed here with `exec`
+    and returned as text, so the replay quotes exactly what ran.  (An instance must keep describing the sample it was given at
+    construction: the oracle works on copies taken before construction.)  No statement produces NaN."""
+    n = len(ys)
+    k = rng.randrange(2 ** 31)
+    i = rng.randrange(n)
+    opts = [
+        "ys.sort()", "ys[:] = ys[::-1].copy()", "ys[:] = -ys", "ys *= 2.0", "ys += 1.0", "ys.fill(0.0)",
+        f"ys[:] = np.random.default_rng({k}).uniform(-5., 5., {n})", f"ys[:] = np.random.default_rng({k}).uniform(-5., 5., {n})",
+        f"ys[:] = np.round(np.random.default_rng({k}).normal(0., 1., {n}), 1)",
+        f"ys[{i}] = {rng.choice([0.0, -7.5, 1e6, rng.uniform(-3, 3)])!r}",
+    ]
+    if ws is not None:
+        j = rng.randrange(n)
+        opts += ["ws[:] = np.roll(ws, 1)", "ws[:] = ws[::-1].copy()", f"ws[:] = 0.0; ws[{j}] = 1.0",
+                 f"ws[:] = np.random.default_rng({k}).dirichlet(np.ones({n}))",
+                 f"ws[{j}] = 0.0; ws /= max(ws.sum(), 1e-300)", "ys.sort(); ws[:] = np.roll(ws, 1)"]
+    stmt = rng.choice(opts)
+    exec(stmt, {"np": np, "ys": ys, "ws": ws})
+    return stmt
+
+
+def apply_statement(stmt, ys, ws=None):
+    """re-execute a statement recorded by `caller_mutation` (replays)"""
+    exec(stmt, {"np": np, "ys": ys, "ws": ws})
+    return stmt
+
+
+class SharedArg:
+    """An argument object that the caller keeps and passes to several calls (the documented pattern `ns = np.linspace(...);
+    hi.quantile_tuning_curve(ns); pt.quantile_tuning_curve(ns); lo.quantile_tuning_curve(ns)`): the SAME object goes into every
+    call, and after each call it must still hold bit for bit what the caller put there.  `container` in {"float64", "list",
+    "tuple"} or an integer dtype name; `values` must be representable in it."""
+
+    def __init__(self, values, container="float64"):
+        self.container = container
+        if container == "list":
+            self.obj = [float(v) for v in values]
+        elif container == "tuple":
+            self.obj = tuple(float(v) for v in values)
+        elif container == "float64":
+            self.obj = np.array([float(v) for v in values], dtype=np.float64)
+        else:
+            self.obj = np.array([int(v) for v in values], dtype=container)
+        self.pristine = self.snapshot()
+        self.calls = []
+
+    def snapshot(self):
+        o = self.obj
+        return (o.dtype.str, o.shape, o.tobytes()) if isinstance(o, np.ndarray) else repr(o)
+
+    def intact(self):
+        return self.snapshot() == self.pristine
+
+    def current(self):
+        o = self.obj
+        return [float(v) for v in (o.ravel().tolist() if isinstance(o, np.ndarray) else o)]
+
+    def changed_by(self, call):
+        """record `call`; returns None if the object is (still) as the caller made it, else the description of the damage --
+        reported once per object: the first call after which it differs is the one that wrote into it"""
+        self.calls.append(call)
+        if self.intact() or getattr(self, "_reported", False):
+            return None
+        self._reported = True
+        return dict(container=self.container, calls_on_this_object=list(self.calls), now=self.current()[:12])
